@@ -107,6 +107,10 @@ def user_view(cont, model, cfg, ctx):
         exp = p in model.tree
         if inn != exp or got != exp:
             return {"kind": "membership", "what": f"'{p}' in container = {inn}, get = {got}, plain tree has it: {exp}"}
+    listing = {path: ks for (path, ks, *_rest) in uv["groups"]}
+    for path, rv in uv["reversed"]:
+        if rv != listing.get(path):
+            return {"kind": "reserved-name-visible" if any(contexp.is_internal(x) for x in rv) else "group-listing", "what": f"reversed() of group {path} yields {rv}, keys() yields {listing.get(path)}", "sig": {"via": "reversed"}}
     refnav = contexp.nav_view(model.tree)
     if uv["nav"] != refnav:
         which = "parent listings" if uv["nav"][0] != refnav[0] else "early-exit visits"
